@@ -275,16 +275,18 @@ class C01Models:
             o = PyObj(cv.qualname, {})
             o.schema_key = key
             ref = st.alloc(o)
-            bound, missing, defaults = ex.bind_params(init, [ref, *args], {k: v for k, v in kwargs.items() if k != "**"}, lineno)
-            vals = {k: v for k, v in bound.items() if k != init.node.args.args[0].arg}
-            kwname = init.node.args.kwarg.arg if init.node.args.kwarg is not None else None
-            if kwname is not None:
-                vals.pop(kwname, None)
-                for k, v in kwargs.items():
-                    if k != "**" and k not in bound:
-                        vals[f"{kwname}.{k}"] = v
-                if "**" in kwargs:
-                    vals[f"{kwname}.**"] = kwargs["**"]
+            ia = init.node.args
+            named = {x.arg for x in ia.posonlyargs + ia.args + ia.kwonlyargs}
+            kwname = ia.kwarg.arg if ia.kwarg is not None else None
+            extra = {k: v for k, v in kwargs.items() if k not in named}
+            if extra and kwname is None:
+                from .engine import PyRaise
+
+                raise PyRaise("TypeError", lineno)
+            bound, missing, defaults = ex.bind_params(init, [ref, *args], {k: v for k, v in kwargs.items() if k in named}, lineno)
+            vals = {k: v for k, v in bound.items() if k != ia.args[0].arg and k != kwname}
+            for k, v in extra.items():
+                vals[f"{kwname}.{k}"] = v  # (the key "**" stands for a forwarded mapping)
             for p in missing:
                 if p not in defaults:
                     from .engine import PyRaise
@@ -294,7 +296,7 @@ class C01Models:
             for k, v in vals.items():
                 if k not in sch:
                     raise Unsupported(f"record model of {cv.qualname}: argument {k} is not declared in schema {key}")
-                o.fields[k] = v if isinstance(sch[k], TObj) or v is None else ex.coerce(v, sch[k])
+                o.fields[k] = v  # captured as it is (object reference, bound method, tuple of callables, scalar term...)
             for k in sch:
                 o.fields.setdefault(k, None)
             ex.assumed.add(f"record model of {cv.qualname}(...): the constructor call captures its arguments; the constructor body is not executed")
